@@ -393,4 +393,248 @@ theorem C17_seek_keeps_size (t : Bytes) (p off : Int) (w : WC σ) (hp : Pos w.co
     | some fs =>
       simp only [modCons, M.modify]
       exact assocSet_all (fun (fs : FetchState) => 0 < fs.maxBytes) _ _ _ hp (hp _ (assocGet_mem _ _ _ hfs))
+/-! ### … over whole polls and histories: a fetch leaves the configuration alone -/
+
+/-- a client operation that leaves the client's configuration alone -/
+def KeepsCfg {α} (m : CM σ α) : Prop := ∀ w, (m w).1.client.cfg = w.client.cfg
+
+theorem kc_bind {α β} (m : CM σ α) (f : α → CM σ β) (hm : KeepsCfg m) (hf : ∀ a, KeepsCfg (f a)) : KeepsCfg (m >>= f) := by
+  intro w
+  rw [M.bind_def]
+  have h1 := hm w
+  rcases hmw : m w with ⟨s', o⟩
+  rw [hmw] at h1
+  cases o with
+  | ok a => exact (hf a s').trans h1
+  | err e => exact h1
+  | panic p => exact h1
+  | diverge => exact h1
+
+theorem kc_pure {α} (a : α) : KeepsCfg (pure a : CM σ α) := fun _ => rfl
+theorem kc_fail {α} (e : Err) : KeepsCfg (M.fail e : CM σ α) := fun _ => rfl
+theorem kc_panic {α} (s : String) : KeepsCfg (M.panic s : CM σ α) := fun _ => rfl
+theorem kc_getClient : KeepsCfg (getClient : CM σ Client) := fun _ => rfl
+theorem kc_get : KeepsCfg (M.get : CM σ (W σ)) := fun _ => rfl
+theorem kc_nextCorr : KeepsCfg (nextCorr : CM σ Int) := fun _ => rfl
+
+theorem kc_getConn (env : Env σ) (host : Bytes) : KeepsCfg (getConn env host) := by
+  intro w
+  unfold getConn
+  split
+  · split
+    · simp only []; split <;> rfl
+    · rfl
+  · simp only []; split <;> rfl
+
+theorem kc_sendRequest (env : Env σ) (host : Bytes) (p : Except Err Bytes) : KeepsCfg (sendRequest env host p) := by
+  intro w
+  unfold sendRequest
+  split
+  · rfl
+  · simp only []; split <;> rfl
+
+theorem kc_recvReply (env : Env σ) (host : Bytes) : KeepsCfg (recvReply env host) := by
+  intro w
+  unfold recvReply
+  simp only []
+  split <;> rfl
+
+theorem kc_zSendReceive (env : Env σ) (v : Bool) (host : Bytes) (rq : FetchRequest) : KeepsCfg (zSendReceive env v host rq) := by
+  unfold zSendReceive
+  refine kc_bind _ _ (kc_getConn env host) fun _ => kc_bind _ _ (kc_sendRequest env host _) fun _ =>
+    kc_bind _ _ (kc_recvReply env host) fun b => ?_
+  split
+  · exact kc_pure _
+  · exact kc_fail _
+  · exact kc_panic _
+
+theorem kc_forHosts {α β} (env : Env σ) (f : Bytes → α → CM σ β) (hf : ∀ h a, KeepsCfg (f h a)) :
+    ∀ (fuel : Nat) (reqs : List (Bytes × α)), KeepsCfg (forHosts env fuel reqs f) := by
+  intro fuel
+  induction fuel with
+  | zero => intro reqs; exact kc_pure _
+  | succ fuel ih =>
+    intro reqs w
+    unfold forHosts
+    split
+    · rfl
+    · simp only []
+      split
+      · rfl
+      · rename_i h r _
+        exact kc_bind _ _ (hf h r) (fun b => kc_bind _ _ (ih _) fun bs => kc_pure _) w
+
+/-- a fetch talks to brokers and book-keeps connections; the configuration is what it was -/
+theorem kc_fetchMessages (env : Env σ) (input : List FetchArg) : KeepsCfg (fetchMessages env input) := by
+  unfold fetchMessages
+  exact kc_bind _ _ kc_nextCorr fun corr => kc_bind _ _ kc_getClient fun c =>
+    kc_forHosts env _ (fun h a => kc_zSendReceive env _ h a) _ _
+
+theorem processPartition_client (nm : Int) (nq : Nat) (single : Bool) (c c' : Consumer) (tr : Nat) (p : FetchPartition) (got : Bool)
+    (h : processPartition nm nq single c tr p = (.ok c', got)) : c'.client = c.client := by
+  unfold processPartition at h
+  cases hd : p.data with
+  | error code => rw [hd] at h; simp at h
+  | ok v =>
+    obtain ⟨hw, msgs⟩ := v
+    rw [hd] at h
+    simp only [] at h
+    cases hfs : assocGet c.fetchOffsets ⟨tr, p.partition⟩ with
+    | none => rw [hfs] at h; simp at h
+    | some fs =>
+      rw [hfs] at h
+      simp only [] at h
+      cases hl : msgs.getLast? with
+      | some last =>
+        rw [hl] at h
+        simp only [Prod.mk.injEq, Outcome.ok.injEq] at h
+        rw [← h.1]
+      | none =>
+        rw [hl] at h
+        simp only [] at h
+        by_cases h1 : fs.offset < hw
+        · simp only [h1, if_true] at h
+          by_cases h2 : fs.maxBytes < c.retryLimit
+          · simp only [h2, if_true, Prod.mk.injEq, Outcome.ok.injEq] at h
+            rw [← h.1]; split <;> rfl
+          · simp only [h2, if_false] at h
+            by_cases h3 : nq = 1
+            · simp [h3] at h
+            · simp only [h3, if_false, Prod.mk.injEq, Outcome.ok.injEq] at h
+              rw [← h.1]; split <;> rfl
+        · simp only [h1, if_false, Prod.mk.injEq, Outcome.ok.injEq] at h
+          rw [← h.1]
+
+theorem processAll_client (nm : Int) (nq : Nat) (single : Bool) :
+    ∀ (parts : List (Bytes × FetchPartition)) (c c' : Consumer) (ne ne' : Bool),
+      processAll nm nq single parts c ne = (.ok c', ne') → c'.client = c.client := by
+  intro parts
+  induction parts with
+  | nil => intro c c' ne ne' h; simp only [processAll, Prod.mk.injEq, Outcome.ok.injEq] at h; rw [← h.1]
+  | cons x r ih =>
+    intro c c' ne ne' h
+    obtain ⟨t, p⟩ := x
+    simp only [processAll] at h
+    cases htr : topicRef c.assignments t with
+    | none => rw [htr] at h; simp at h
+    | some tr =>
+      rw [htr] at h
+      simp only [] at h
+      rcases hpp : processPartition nm nq single c tr p with ⟨o, got⟩
+      rw [hpp] at h
+      cases o with
+      | ok c1 => exact (ih _ _ _ _ h).trans (processPartition_client nm nq single c c1 tr p got hpp)
+      | err e => simp at h
+      | panic s => simp at h
+      | diverge => simp at h
+
+theorem processAllReached_client (nm : Int) (nq : Nat) (single : Bool) :
+    ∀ (parts : List (Bytes × FetchPartition)) (c : Consumer), (processAllReached nm nq single parts c).client = c.client := by
+  intro parts
+  induction parts with
+  | nil => intro c; rfl
+  | cons x r ih =>
+    intro c
+    obtain ⟨t, p⟩ := x
+    simp only [processAllReached]
+    cases htr : topicRef c.assignments t with
+    | none => rfl
+    | some tr =>
+      simp only []
+      rcases hpp : processPartition nm nq single c tr p with ⟨o, got⟩
+      cases o with
+      | ok c1 => exact (ih c1).trans (processPartition_client nm nq single c c1 tr p got hpp)
+      | err e => rfl
+      | panic s => rfl
+      | diverge => rfl
+
+theorem processResponses_client (nq : Nat) (resps : List FetchResponse) (w : WC σ) :
+    (processResponses nq resps w).1.cons.client = w.cons.client := by
+  unfold processResponses
+  simp only []
+  split
+  · rfl
+  · split
+    · rename_i c' ne h; exact processAll_client _ _ _ _ _ _ _ _ h
+    · exact processAllReached_client _ _ _ _ _
+    · rfl
+    · rfl
+
+/-- what a poll keeps: positive sizes, and the configuration they are measured against -/
+def Good (c : Consumer) : Prop := 0 < c.client.cfg.fetchMaxBytes ∧ Pos c
+
+theorem lift_fetch_good (env : Env σ) (args : List FetchArg) (w : WC σ) (hg : Good w.cons) :
+    Good (liftClient (fetchMessages env args) w).1.cons := by
+  have hk := kc_fetchMessages env args ⟨w.world, w.cons.client⟩
+  refine ⟨?_, hg.2⟩
+  show 0 < ((fetchMessages env args ⟨w.world, w.cons.client⟩).1.client).cfg.fetchMaxBytes
+  rw [hk]; exact hg.1
+
+theorem process_good (nq : Nat) (resps : List FetchResponse) (w : WC σ) (hg : Good w.cons) :
+    Good (processResponses nq resps w).1.cons := by
+  refine ⟨?_, C17_sizes_stay_positive nq resps w hg.1 hg.2⟩
+  rw [processResponses_client]; exact hg.1
+
+theorem bind_good {α β} (m : CoM σ α) (f : α → CoM σ β) (hm : ∀ w, Good w.cons → Good (m w).1.cons)
+    (hf : ∀ a w, Good w.cons → Good (f a w).1.cons) (w : WC σ) (hg : Good w.cons) : Good ((m >>= f) w).1.cons := by
+  rw [M.bind_def]
+  have h1 := hm w hg
+  rcases hmw : m w with ⟨s', o⟩
+  rw [hmw] at h1
+  cases o with
+  | ok a => exact hf a s' h1
+  | err e => exact h1
+  | panic p => exact h1
+  | diverge => exact h1
+
+/-- **a poll keeps every fetch size positive** - whatever the brokers answer, whether the poll is a regular one or a retry -/
+theorem C17_poll_keeps_positive (env : Env σ) (w : WC σ) (hg : Good w.cons) : Good (poll env w).1.cons := by
+  unfold poll
+  refine bind_good _ _ (fun w hg => hg) (fun c => ?_) w hg
+  cases hr : c.retry with
+  | nil =>
+    simp only []
+    exact bind_good _ _ (fun w hg => lift_fetch_good env _ w hg) (fun r w hg => process_good _ _ w hg)
+  | cons tp rest =>
+    simp only []
+    refine bind_good _ _ (fun w hg => hg) (fun _ => ?_)
+    cases hfs : assocGet c.fetchOffsets tp with
+    | none => exact fun w hg => hg
+    | some fs =>
+      simp only []
+      exact bind_good _ _ (fun w hg => lift_fetch_good env _ w hg) (fun r w hg => process_good _ _ w hg)
+
+/-- polls and seeks -/
+inductive SOp | poll | seek (t : Bytes) (p off : Int)
+
+def runS (env : Env σ) (w : WC σ) : SOp → WC σ
+  | .poll => (poll env w).1
+  | .seek t p off => (seek t p off w).1
+
+/-- **over any history of polls and seeks**, from a consumer with a positive configured fetch size and positive sizes (what
+    creation gives: `C07_assignment` puts the configured size on every partition): every Fetch request ever sent carries
+    positive sizes, so an oversized entry is met by sizes that actually grow -/
+theorem C17_history_positive (env : Env σ) (ops : List SOp) (w : WC σ) (hg : Good w.cons) :
+    Good (ops.foldl (runS env) w).cons := by
+  induction ops generalizing w with
+  | nil => exact hg
+  | cons op r ih =>
+    apply ih
+    cases op with
+    | poll => exact C17_poll_keeps_positive env w hg
+    | seek t p off =>
+      refine ⟨?_, C17_seek_keeps_size t p off w hg.2⟩
+      have : (seek t p off w).1.cons.client = w.cons.client := by
+        unfold seek
+        rw [M.bind_def]
+        simp only [getCons]
+        cases htr : topicRef w.cons.assignments t with
+        | none => rfl
+        | some tr =>
+          simp only []
+          cases hfs : assocGet w.cons.fetchOffsets ⟨tr, p⟩ with
+          | none => rfl
+          | some fs => rfl
+      show 0 < (seek t p off w).1.cons.client.cfg.fetchMaxBytes
+      rw [this]; exact hg.1
 end Kafka.Props.C17
